@@ -491,9 +491,16 @@ func (p *RegProcessor) processBdReq(c2sPayload *pb.C2SWrapper) (*pb.Registration
 	}
 
 	phantomSubnetSupportsRandPort := true
+
+	// Take the selector read lock once for the whole request. sync.RWMutex read locks must not be
+	// acquired recursively: if ReloadSubnets calls Lock between two RLock calls of the same
+	// request, the second RLock queues behind the pending writer, which in turn waits for the
+	// first read lock to be released, and the registrar stops answering. Holding a single read
+	// lock also guarantees that the IPv4 and IPv6 phantoms come from the same set of subnets.
+	p.selectorMutex.RLock()
+	defer p.selectorMutex.RUnlock()
+
 	if c2s.GetV4Support() {
-		p.selectorMutex.RLock()
-		defer p.selectorMutex.RUnlock()
 		phantom4, err := p.ipSelector.Select(
 			cjkeys.ConjureSeed,
 			uint(c2s.GetDecoyListGeneration()), //generation type uint
@@ -511,8 +518,6 @@ func (p *RegProcessor) processBdReq(c2sPayload *pb.C2SWrapper) (*pb.Registration
 	}
 
 	if c2s.GetV6Support() {
-		p.selectorMutex.RLock()
-		defer p.selectorMutex.RUnlock()
 		phantom6, err := p.ipSelector.Select(
 			cjkeys.ConjureSeed,
 			uint(c2s.GetDecoyListGeneration()),
